@@ -76,8 +76,8 @@ CHECKS = {
    design="4/C04"),
  "C07": dict(
    technique="FortranScopes.tla with seeded-defect actions: TLC enumerates valid programs and programs with exactly one defect (the spec records the expected diagnostic class, severity and line); rendered programs are opened in a live server and publishDiagnostics is compared with expDiag",
-   text="Valid programs must publish no severity-1 diagnostic; for each of 16 modelled defect classes seeded at every applicable position within the bound the class/severity/line must be published and no other error class may appear.",
-   note="Trusted: TLC, renderer, keyword-set classification of messages. Not modelled: unimplemented deferred binding.",
+   text="Valid programs must publish no severity-1 diagnostic; for each of 17 modelled defect classes seeded at every applicable position within the bound the class/severity/line must be published and no other error class may appear.",
+   note="Trusted: TLC, renderer, keyword-set classification of messages. The class 'unimplemented deferred binding' is decided on the universes of Deferred.tla (abstract base with 1-2 deferred bindings, EXTENDS chains of depth 2-3, every abstract/concrete and implements-subset combination, one module or one module per type in both link orders), validated against gfortran.",
    design="4/C07"),
  "C08": dict(
    technique="TLA+ spec Preproc.tla: TLC checks the implementation-shaped two-stack conditional machine against reference C-preprocessor semantics in every reachable state (named deviation must yield a counterexample); TLC-enumerated and simulated directive files replayed into preprocess_file and a live server, compared with the spec state; clang -E validates the spec",
